@@ -25,7 +25,7 @@ REAL_VS_STUB = {"real": ["incomplete_cooperative.regret", "numpy.save/load", "js
 ASSUMPTIONS = ["terminal values are non-negative float32 (the property's precondition)",
                "float32 arithmetic: one-step comparison tolerance 2e-4*scale absolute + 1e-4 relative",
                "rows of cumulative_regret / cumulative_strategy are indexed by the documented rank of a node"]
-PROBES = ["limit_below_boundary", "limit_above_number_of_coalitions", "restart_then_iterate", "n5", "plus",
+PROBES = ["old_checkpoint_loaded_again", "limit_below_boundary", "limit_above_number_of_coalitions", "restart_then_iterate", "n5", "plus",
           "all_zero_values", "uniform_fallback_at_nonroot"]
 TIERS = {
     "quick": {"runs": 10000, "wall": 40, "batch": 6, "shrink_s": 40},
@@ -92,6 +92,7 @@ def run(sim: Sim) -> None:
     fs.log_to_sim = False
     twin = None  # the never-stopped minimiser once a restart has happened
     restarted = False
+    checkpoints: list[tuple] = []  # (directory, iteration, regret bytes, strategy bytes) as saved
     try:
         iters = 1 + sim.choose(6 if len(internal) < 200 else 3, "iterations")
         for t in range(iters):
@@ -101,6 +102,8 @@ def run(sim: Sim) -> None:
                     d = Path(fs.root) / f"ckpt{t}"
                     fs.begin_op()
                     m.save(d)
+                    checkpoints.append((d, int(m.iteration), np.array(m.cumulative_regret).tobytes(),
+                                        np.array(m.cumulative_strategy).tobytes()))
                     if twin is None:
                         twin = m
                     # the process ends; a new one starts
@@ -113,6 +116,22 @@ def run(sim: Sim) -> None:
                 compare_twins(sim, m, twin, ctx, "after load")
             if sim.flip(1, 8, "other-use"):
                 prelude.warm_process(sim, label="midrun")
+            if checkpoints and sim.flip(1, 5, "reload-old-checkpoint"):
+                # some other process loads an earlier checkpoint again: it must still be what was saved then
+                d0, it0_, r0, s0 = checkpoints[sim.choose(len(checkpoints), "which-checkpoint")]
+                with sim.guard("C14.save_load_raised"):
+                    fs.install()
+                    other = GameRegretMinimizer.load(d0)
+                    fs.uninstall()
+                sim.checked()
+                sim.probe("old_checkpoint_loaded_again")
+                if int(other.iteration) != it0_ or np.array(other.cumulative_regret).tobytes() != r0 \
+                        or np.array(other.cumulative_strategy).tobytes() != s0:
+                    sim.fail("C14.checkpoint_changed_after_it_was_saved",
+                             {**ctx, "checkpoint_iteration": it0_, "loaded_iteration": int(other.iteration),
+                              "regret_equal": np.array(other.cumulative_regret).tobytes() == r0,
+                              "strategy_equal": np.array(other.cumulative_strategy).tobytes() == s0})
+                del other
             vals = draw_terminal(sim, len(leaves))
             iterate_checked(sim, m, vals, leaves, leaf_ids, internal, n, noc, L, plus, viable, ctx)
             sim.state(n, limit, plus, t, restarted)
@@ -233,7 +252,9 @@ def iterate_checked(sim: Sim, m, vals: np.ndarray, leaves, leaf_ids, internal, n
         if not plus:
             d_impl = R1[r] - R0[r]
             dot = float((sigma[node] * d_impl).sum())
-            if abs(dot) > 1e-4 * float(np.abs(d_impl).sum()) + 1e-5 * scale:
+            # R is float32: the increment read back as R1 - R0 carries a rounding error of ~eps32 * |R|
+            mag = float(max(np.abs(R0[r]).max(), np.abs(R1[r]).max()))
+            if abs(dot) > 1e-4 * float(np.abs(d_impl).sum()) + 1e-5 * scale + 1e-6 * mag:
                 sim.fail("C14.regret_increment_not_orthogonal_to_strategy", {**ctx, "node": node, "dot": dot})
         want_s = S0[r] + w * sigma[node] * reach[node]
         if not np.allclose(S1[r], want_s, rtol=1e-4, atol=1e-5 * w):
